@@ -148,6 +148,14 @@ def rand_adp(rng, kinds=('Uiso', 'Uani', None)):
     if t == 'Uiso':
         return t, rng.uniform(0.0005, 0.08)
     if t == 'Uani':
+        u = rng.random()
+        if u < 0.12:
+            # special tensors a refinement program writes for an atom refined "isotropically" in the anisotropic list: equal
+            # diagonal, zero off-diagonal ([u,u,u,0,0,0] is NOT isotropic in an oblique cell), or diagonal only
+            v = rng.uniform(0.002, 0.06)
+            return t, [v, v, v, 0.0, 0.0, 0.0]
+        if u < 0.2:
+            return t, [rng.uniform(0.002, 0.06) for _ in range(3)] + [0.0, 0.0, 0.0]
         return t, rand_uani(rng)
     return None, None
 
